@@ -16,7 +16,7 @@ LEVEL_TEXT = ("Static structural proof of necessary conditions: (R14.1) the 17 s
               "(schema, entry, attribute) call made by the runner; (R14.3) the three per-section passes iterate the "
               "section enum itself; (R14.4) error-context push/pop balanced. That released schemas pass and that a "
               "seeded fault is detected at every position are NOT decided.")
-LEVEL_EXTRA = "Added after the seeded evaluation: (R14.5) known/unknown of an attribute is decided against the valid-attribute table of the entry's own section. (R14.6) no issue list is discarded inside the compliance modules. (R14.7) attribute validators are skipped for attributes the entry's section does not declare. Added after the hunting pass: (R14.8) the key tested for an existing tag is one of the registered forms (a known finding today: repeated '#' children); (R14.9) per-library tables are consulted with the entry's own inLibrary value; (R14.10) NaN takes the conversion-factor report; (R14.11) the character pass guards the str use of raw attribute values. (R14.12) a deprecatedFrom equal to the schema version takes the report; (R14.13) the unknown-attribute report is conditional on nothing but the unknown attributes; (R14.14) default units are looked up on the entry under validation; (R14.15) schema_version_for_library can answer with withStandard; (R14.16) the inLibrary report is guarded by the membership test alone."
+LEVEL_EXTRA = "Added after the seeded evaluation: (R14.5) known/unknown of an attribute is decided against the valid-attribute table of the entry's own section. (R14.6) no issue list is discarded inside the compliance modules. (R14.7) attribute validators are skipped for attributes the entry's section does not declare. Added after the hunting pass: (R14.8) the key tested for an existing tag is one of the registered forms (a known finding today: repeated '#' children); (R14.9) per-library tables are consulted with the entry's own inLibrary value; (R14.10) NaN takes the conversion-factor report; (R14.11) the character pass guards the str use of raw attribute values. (R14.12) a deprecatedFrom equal to the schema version takes the report; (R14.13) the unknown-attribute report is conditional on nothing but the unknown attributes; (R14.14) default units are looked up on the entry under validation; (R14.15) schema_version_for_library can answer with withStandard; (R14.16) the inLibrary report is guarded by the membership test alone. (R14.17) the missing-item report of item_exists_check depends on the item lookup alone."
 
 SIG = ["hed_schema", "tag_entry", "attribute_name"]
 
@@ -508,6 +508,41 @@ def run(ctx):
                               "condition is false (e.g. a standard schema, whose library list is empty) any library name passes",
                               desc="report guarded by the membership test alone")
         ctx.floor("R14.16", "tests guarding the inLibrary report", n_member, 1)
+
+    # ---------------- R14.17: a named item that does not exist is reported whatever else holds for the entry
+    ctx.rule("R14.17", "the 'item does not exist' report of item_exists_check depends on the item lookup alone")
+    iec = prog.find_function("schema_attribute_validators.item_exists_check")
+    ctx.saw(iec)
+    v17 = view(ctx, iec)
+    rd17 = _RD(iec)
+    lookups = {t.id for a in walk_no_nested(iec.node) if isinstance(a, ast.Assign) and isinstance(a.value, ast.Call)
+               and call_name(a.value) == "get" and "hed_schema" in norm(a.value.func) for t in a.targets if isinstance(t, ast.Name)}
+    n_look = sum(1 for a in walk_no_nested(iec.node) if isinstance(a, ast.Assign) and isinstance(a.value, ast.Call)
+                 and call_name(a.value) == "get" and "hed_schema" in norm(a.value.func))
+    ctx.floor("R14.17", "section lookups in item_exists_check", n_look, 3)
+    from sa.null import nonnull_labels as _nnl
+    missing = [c for c in v17.conds(lambda t: any(_nnl(t, nm) for nm in lookups) and not isinstance(t, ast.BoolOp))]
+    ctx.floor("R14.17", "'item not found' tests", len(missing), 1)
+    entry_par = iec.params()[1]
+    for c in missing:
+        bad = []
+        for cond in v17.conds():
+            if cond is c:
+                continue
+            for lab in (True, False):
+                if v17.edge_guards(cond, lab, c) and any(isinstance(x, ast.Name) and x.id == entry_par for x in ast.walk(cond.ast)) \
+                        and not any(isinstance(x, ast.Name) and x.id in ("item", "section_key") for x in ast.walk(cond.ast)):
+                    bad.append(cond)
+        # an early return that depends on the entry alone and sits before the loop cuts the report off as well
+        for r in v17.cfg.nodes:
+            if r.kind == "stmt" and isinstance(r.ast, ast.Return) and v17.dominates(r, c) is False:
+                g = v17.guard_for(r, lambda t: any(isinstance(x, ast.Name) and x.id == entry_par for x in ast.walk(t)) and "has_attribute" in norm(t))
+                if g is not None and c in v17.cfg.reachable_from(g[0], True) and r.ast.lineno < c.ast.lineno:
+                    bad.append(g[0])
+        ctx.check(not bad, "R14.17", iec.qualname, c.ast, loc(iec, c.ast),
+                  "whether a nonexistent suggested/related tag, unit class or value class is reported depends on an attribute of the "
+                  "entry that names it (%s): on such entries (e.g. deprecated ones) the fault passes unreported"
+                  % (norm(bad[0].ast)[:60] if bad else ""), desc="missing-item test reached for every entry")
 
 
 def _unpack_names(node):
